@@ -441,10 +441,11 @@ theorem inbound_exact_fate (c : Config) (p : Packet) (d : Nat) (hon : famOn c p.
   simp only [natSpec, hh, natPreroutingSpec, hkv, hmode, Bool.false_eq_true, if_false, Bool.not_false, Bool.true_and]
   by_cases hc : inboundCaptured c p = true <;> simp [hc]
 
-/-- Later packets of a connection never meet the nat table: in REDIRECT mode they pass (or, with
-    drop-invalid, INVALID ones are dropped at PREROUTING). -/
-theorem non_new_untouched (c : Config) (p : Packet) (d : Nat) (hmode : c.tproxy = false)
-    (hct : p.ctstate = .established ∨ p.ctstate = .related) :
+/-- Packets of an ESTABLISHED connection never meet the nat table: in REDIRECT mode they pass untouched.
+    (RELATED is different: the first packet of an expected connection DOES consult nat - `natConsulted` -
+    and is decided like a NEW one; INVALID packets are dropped at PREROUTING with drop-invalid.) -/
+theorem established_untouched (c : Config) (p : Packet) (d : Nat) (hmode : c.tproxy = false)
+    (h : p.ctstate = .established) :
     traverse (d + 2) (rulesOf c p.fam) p = { pkt := p } := by
   rw [fate_correct]
   unfold specFate
@@ -452,10 +453,14 @@ theorem non_new_untouched (c : Config) (p : Packet) (d : Nat) (hmode : c.tproxy 
   · rfl
   · have hm : mangleSpec c p = .accept p := by
       unfold mangleSpec mangleOutputSpec manglePreroutingSpec
-      rcases hct with h | h <;> cases p.hook <;> simp [hmode, h]
-    rcases hct with h | h <;>
-      simp [List.foldl, specStep, hm, h, natConsulted, show (Table.raw == Table.nat) = false from rfl,
-        show (Table.mangle == Table.nat) = false from rfl]
+      cases p.hook <;> simp [hmode, h]
+    simp [List.foldl, specStep, hm, h, natConsulted, show (Table.raw == Table.nat) = false from rfl,
+      show (Table.mangle == Table.nat) = false from rfl]
+
+/-- The first packet of a RELATED (expected) connection is decided by nat exactly as a NEW one is. -/
+theorem related_like_new (c : Config) (p : Packet) (h : Hook) :
+    natConsulted h .related p.inIf = natConsulted h .new p.inIf := by
+  simp [natConsulted]
 
 /-! ## Across hooks: traffic on `lo` -/
 
@@ -948,13 +953,20 @@ theorem v4_v6_same_fate (c : Config) (p4 p6 : Packet) (d : Nat) (he : c.enableIP
     Validate demands) and both families, every `-I` position exists when its command runs, every jump
     goes to a declared user chain, every user chain receiving a rule is declared, every address
     literal is of the table's family, and every match / target sits at a hook where the kernel accepts it
-    (owner and `-o` only reachable from OUTPUT, `-i` only from PREROUTING, TPROXY only in mangle/PREROUTING) - iptables-restore / ip6tables-restore accept the whole input, so
-    `chainOf` is its meaning. -/
-theorem rulesOf_wellFormed (c : Config) (f : Fam) (hlo : c.loCidr.v6 = false) :
+    (owner and `-o` only reachable from OUTPUT, `-i` only from PREROUTING, TPROXY only in mangle/PREROUTING), and no line
+    has more words than the restore parser holds - iptables-restore / ip6tables-restore accept the whole input, so
+    `chainOf` is its meaning. The last conjunct needs at most 49 owner groups in the include list: Validate admits
+    64, and from 50 on the one owner-group line has 5*n+4 > 251 words and the real tool refuses the input
+    (`too_many_owner_groups_witness`; reproduced on the real code by `c20 finding`). -/
+theorem rulesOf_wellFormed (c : Config) (f : Fam) (hlo : c.loCidr.v6 = false)
+    (hog : c.ownerGroupsAll = true ∨ c.ownerGroupsInclude.length ≤ 49) :
     wellFormed f (rulesOf c f) = true := by
   unfold wellFormed
   simp only [Bool.and_eq_true, List.all_eq_true]
-  refine ⟨⟨⟨⟨?_, ?_⟩, ?_⟩, ?_⟩, ?_⟩
+  refine ⟨⟨⟨⟨⟨?_, ?_⟩, ?_⟩, ?_⟩, ?_⟩, ?_⟩
+  · intro r hr
+    rcases mem_rulesOf' c f r hr with ⟨e, he, _, rfl⟩
+    exact (List.all_eq_true.mp (compile_tokE c hog)) e he
   · intro r hr
     rcases mem_rulesOf' c f r hr with ⟨e, he, _, rfl⟩
     exact (List.all_eq_true.mp (compile_hookE c)) e he
@@ -1265,5 +1277,22 @@ theorem loopback_included_delivery_loop_witness :
     (fateOf { exCfg with tproxy := true, outIncludeAll := false, outInclude := [⟨false, 2130772483, 32⟩, ⟨false, 167772160, 8⟩] }
       delivery).redirect = some 15006 := by decide
 
+set_option maxRecDepth 8192 in
+/-- **FINDING `c20:owner-groups-over-argc-limit`** (recorded): Validate admits up to 64 owner groups in the
+    include list, the single rule that lists them has 5 words per group, and from 50 groups on the line is
+    longer than the restore parser holds: the text is not well formed (the real tool answers "Parser cannot
+    handle more arguments" and nothing at all is installed). 49 groups still are. -/
+theorem too_many_owner_groups_witness :
+    wellFormed .v4 (rulesOf { exCfg with ownerGroupsAll := false, ownerGroupsInclude := List.replicate 50 "g" } .v4) = false ∧
+    ((rulesOf { exCfg with ownerGroupsAll := false, ownerGroupsInclude := List.replicate 49 "g" } .v4).all
+      (fun r => r.tokens ≤ maxLineTokens)) = true := by decide
+
+/-- Recorded corner: `--inbound-tproxy-mark 0` is accepted, and with it the "already marked" bypass of
+    mangle/ISTIO_INBOUND (`-m mark --mark 0 -j RETURN`) matches every UNMARKED packet: nothing ordinary is
+    captured inbound (hypothesis `p.mark ≠ c.tproxyMark` of `tproxy_inbound_exact` excludes exactly those packets). -/
+theorem tproxy_mark_zero_captures_nothing_witness :
+    let p : Packet := { exApp with hook := .prerouting, inIf := "eth0", outIf := "", uid := "", gid := "" }
+    (fateOf { exCfg with tproxy := true } p).tproxy = some 15006 ∧
+    (fateOf { exCfg with tproxy := true, tproxyMark := 0 } p).tproxy = none := by decide
 
 end IstioModel.C20
